@@ -304,6 +304,10 @@ def size_record(pdk, req, inst, pinst):
     return rec
 
 
+def has_mult(h, prim):
+    return "mult" in getattr(getattr(h.primitives, prim).Params, "__dataclass_fields__", {})
+
+
 def build_design(h, req, tag):
     """Top -> (Mid x2 shared) -> device under test; plus instances that must stay untouched"""
     ports = PRIM_PORTS[req["prim"]]
@@ -313,6 +317,9 @@ def build_design(h, req, tag):
     mid.vss = h.Port()
     mid.add(make_prim_call(h, req)(**{p: mid.get("t_" + p) for p in ports}), name="dut")
     mid.add(make_prim_call(h, req)(**{p: mid.get("t_" + p) for p in ports}), name="dut2")          # equal parameters: must get the same device call
+    if has_mult(h, req["prim"]):
+        # ... and a third that differs in its multiplier ONLY: it must keep its own
+        mid.add(make_prim_call(h, dict(req, mult=5))(**{p: mid.get("t_" + p) for p in ports}), name="dut3")
     mid.add(h.primitives.IdealResistor(r=1)(p=mid.get("t_" + ports[0]), n=mid.vss), name="rkeep")
     ext = h.ExternalModule(name="KeepMe", port_list=[h.Port(name="a")], desc="untouched", domain="other")
     mid.add(ext()(a=mid.vss), name="xkeep")
@@ -338,6 +345,8 @@ def run_case(args):
     r = {"prim": req["prim"], "ports": PRIM_PORTS[req["prim"]], "by": req["by"], "model": req["model"], "tp": req["tp"], "fam": req["fam"], "vth": req["vth"]}
     tag = str(tid)
     ev["reqs"] = {f"Mid{tag}.dut": r, f"Mid{tag}.dut2": r}
+    if has_mult(h, req["prim"]):
+        ev["reqs"][f"Mid{tag}.dut3"] = r
     try:
         pm = importlib.import_module(info["module"])
         a, _ = build_design(h, req, tag)
@@ -398,9 +407,11 @@ def run_case(args):
         w["top"] = w["order"][-1]
         ev["W1"] = w
         pmid = next(m for m in pkg1.modules if m.name.split(".")[-1] == f"Mid{tag}")
-        for iname in ("dut", "dut2"):
+        for iname in ("dut", "dut2", "dut3"):
+            if iname not in bmid.instances:
+                continue
             pinst = next(i for i in pmid.instances if i.name == iname)
-            ev["sizes"][f"Mid.{iname}"] = size_record(case["pdk"], req, bmid.instances[iname], pinst)
+            ev["sizes"][f"Mid.{iname}"] = size_record(case["pdk"], req if iname != "dut3" else dict(req, mult=5), bmid.instances[iname], pinst)
         for fmt, key in (("spice", "spice_ok"), ("spectre", "spectre_ok")):
             try:
                 vlsirtools.netlist(pkg=pkg1, dest=io.StringIO(), fmt=fmt)
@@ -543,6 +554,7 @@ def run(tier, seed, replay_file=None):
                 ents = [e for e in evs[i]["table"] if e["key"] == c["req"]["model"]]
                 if ents and all(e["ports"] != PRIM_PORTS[c["req"]["prim"]] for e in ents):
                     feats.append("device_terminals_differ_from_generic_primitive")
+                feats.append(f"combo:{c['pdk']}:{c['req']['prim']}:{c['req']['model']}")
             o.violations.append(Violation(clause=clause.split(":")[0], case=c, features=feats, detail={"clause": clause, "exc": evs[i]["exc"], "exc_type": evs[i]["exc_type"]}))
     # logic cells
     libs = cell_libs()
